@@ -138,6 +138,9 @@ func NewReporter(p Params) *Reporter {
 	r.res.Sub = p.Sub
 	r.res.Child = p.Child
 	r.res.Counters = map[string]int64{}
+	r.res.Violations = []Violation{}
+	r.res.Inconclusive = []string{}
+	r.res.Samples = []any{}
 	f, err := os.OpenFile(filepath.Join(p.OutDir, fmt.Sprintf("journal.%s.%d.log", tag(p), p.Child)), os.O_CREATE|os.O_WRONLY|os.O_APPEND, 0o644)
 	if err == nil {
 		r.journal = f
